@@ -556,6 +556,14 @@ def arg_misuse(ctx, r):
     nargs_src = [x for x in q.walk(q.find_fn(items, "update_function_arg_info")["body"]) if x["k"] == "Local" and q.pat_bindings(x["pat"]) == ["nargs"]] if q.find_fn(items, "update_function_arg_info") else []
     r.ob(bool(nargs_src) and ".len()" in q.show(nargs_src[0]["init"]) and "required_args" not in q.show(nargs_src[0]["init"]), "resolve.rs:update_function_arg_info:nargs-from-distinct-names", RES, nargs_src[0]["l"] if nargs_src else g["l"],
          "the number of argument slots must be the number of declared parameters, not a count of distinct names (two parameters may share a name)", sample="nargs = number of declared parameters")
+    # a positional argument marks its parameter as supplied, whether or not that parameter is required
+    seen_ins = [x for x in q.walk(f["body"]) if x["k"] == "MethodCall" and x["m"] == "insert" and q.show(x["recv"]) == "seen_named_args"]
+    for x in seen_ins:
+        gates = [c for c in q.walk(f["body"]) if c["k"] == "If" and any(y is x for y in q.walk(c["t"])) and ("missing" in q.show(c["c"]) or "required" in q.show(c["c"]))]
+        r.ob(not gates, "resolve.rs:calculate_func_call_order:supplied-parameter-recorded-conditionally", RES, x["l"],
+             f"`{q.show(x)[:60]}` happens only under `{q.show(gates[0]['c'])[:70] if gates else ''}`: a parameter with a default is not in the set of required names, so a positional argument for it goes unrecorded and naming it again (`f(1, 2, b = 7)`) is accepted, the later value silently winning",
+             sample="every supplied parameter is recorded as seen")
+    r.count("sites recording a supplied parameter", len(seen_ins), 2, RES)
     flat = any(x["k"] == "MethodCall" and x["m"] == "flatten" for x in q.walk(g["body"]))
     r.ob(flat, "resolve.rs:calculate_named_arg_order:slot-order", RES, g["l"], "the result must be read out in slot (declaration) order")
 
@@ -651,7 +659,7 @@ def typed_fallback(ctx, r):
 # ----------------------------------------------------------------------------------------- EPILOGUE
 
 
-@rule("EPILOGUE", ["C01"], "function epilogues choose ReturnVoid vs Return(n) from the return type, never from the argument count")
+@rule("EPILOGUE", ["C01", "C23"], "function epilogues choose ReturnVoid vs Return(n) from the return type, never from the argument count")
 def epilogue(ctx, r):
     items = ctx.file_items(TB)
     if items is None:
@@ -720,6 +728,11 @@ def epilogue(ctx, r):
                 stop_k |= kinds_of(x)
             if x["k"] == "Path" and x["p"] in ("Instr::Return", "Instr::ReturnVoid"):
                 ret_k |= kinds_of(x)
+        pushed_vals = sorted({q.show(x["args"][0]).replace(" ", "") for x in q.walk(tb["body"]) if x["k"] == "MethodCall" and x["m"] == "push" and q.show(x["recv"]).endswith("return_stack") and x["args"]})
+        ret_vals = sorted({q.show(x["args"][0]).replace(" ", "") for x in q.walk(tb["body"]) if x["k"] == "Call" and q.show(x["f"]) == "Instr::Return" and x["args"]})
+        r.ob(pushed_vals == ret_vals and len(ret_vals) == 1, "translate_bytecode.rs:translate_func_body_helper:early-return-count-differs-from-epilogue", TB, tb["l"],
+             f"`return` statements and failing `?` return with the count recorded in the return context ({pushed_vals}), the end of the body with {ret_vals}: both must be the number of stack slots the arguments occupy. A count that includes void parameters makes an early exit write its result into the caller's frame",
+             sample=f"return context and epilogue both use {ret_vals}")
         r.ob(not (pushing & stop_k) and ret_k <= pushing and bool(stop_k) and bool(ret_k), "translate_bytecode.rs:translate_func_body_helper:return-context-disagrees-with-epilogue", TB, tb["l"],
              f"bodies of kind {sorted(stop_k)} end in Stop (they run as a thread's top level, with no call frame) and bodies of kind {sorted(ret_k)} end in Return; the return context is pushed for {sorted(pushing)}. A kind that ends in Stop but has a return context compiles `return` inside it to ReturnVoid, which pops a call frame that does not exist (internal fault); a kind that returns but has none compiles `return` to Stop",
              sample=f"return context pushed exactly for {sorted(pushing)}; Stop for {sorted(stop_k)}")
@@ -860,6 +873,32 @@ def assign_captured(ctx, r):
         r.missing("resolve_names_stmt:Assign", RES)
         return
     errs = [x for x in q.walk(arm["body"]) if x["k"] == "If" and "is_captured" in q.show(x["c"]) and any(y["k"] == "MethodCall" and y["m"] == "push" and q.show(y["recv"]).endswith(".errors") for y in q.walk(x["t"]))]
+    for e_ in errs:
+        conj = []
+
+        def flat(c):
+            if c["k"] == "Binary" and c["op"] == "&&":
+                flat(c["a"])
+                flat(c["b"])
+            else:
+                conj.append(c)
+
+        flat(e_["c"])
+        extra = []
+        for c in conj:
+            t = q.show(c).replace(" ", "")
+            if "is_captured" in t:
+                continue
+            if c["k"] == "Let":
+                pt = q.show_pat(c["pat"]).replace(" ", "")
+                if pt in ("ExprKind::Variable(symbol)",) or pt.startswith("ExprKind::Variable("):
+                    continue
+                if pt in ("Some(Declaration::Var(_))", "Some(Declaration::Var(..))"):
+                    continue
+            extra.append(q.show(c)[:80])
+        r.ob(not extra, "resolve.rs:resolve_names_stmt:Assign:captured-check-narrowed", RES, e_["l"],
+             f"the captured-assignment diagnostic is only raised under the extra condition(s) {extra}: every captured variable - `var`, `let`, loop and match bindings, and parameters of the enclosing function (declared as identifiers, not patterns) - is a private copy inside the lambda or task, so the assignment must be reported for all of them",
+             sample="Assign: captured variable of any declaration form -> diagnostic")
     r.ob(bool(errs), "resolve.rs:resolve_names_stmt:Assign:captured-assignment-accepted", RES, arm["l"],
          "assignment to a variable declared outside the enclosing lambda/task is not reported; the code generator then panics because a closure only holds copies",
          sample="Assign: `is_captured` -> diagnostic")
@@ -872,7 +911,7 @@ def assign_captured(ctx, r):
              f"{v} must resolve its body in a closure scope, otherwise assignments to captured variables are not detected", sample=f"{v}: body resolved in a closure scope")
 
 
-@rule("CAPTURE-WALK", ["C20"], "the scope walk that decides 'captured' never forgets a lambda/task boundary it has crossed")
+@rule("CAPTURE-WALK", ["C20", "C19"], "the scope walk that decides 'captured' never forgets a lambda/task boundary it has crossed")
 def capture_walk(ctx, r):
     items = ctx.file_items(RES)
     if items is None:
@@ -1098,3 +1137,123 @@ def if_void(ctx, r):
     r.ob((not void_when_no_else) or depends, "translate_bytecode.rs:translate_expr:IfElse:body-yields-without-else", TB, calls[0]["l"],
          f"the checker makes `if c {{ e }}` void, but the generator compiles the body with the yield flag `{q.show(flag)}`, independent of whether there is an else: the body's value stays on the operand stack (inside a `for` the next iteration then faults with 'expected struct')",
          sample=f"generator: then-branch yields iff `{q.show(flag)}`")
+
+
+@rule("IFACE-DISPATCH", ["C24", "C02"], "an interface method is found in an implementation by its name: implementations are only required to contain every method, in any order")
+def iface_dispatch(ctx, r):
+    n = 0
+    for file in (TB, TC):
+        items = ctx.file_items(file)
+        if items is None:
+            r.missing(file)
+            continue
+        short = file.split("/")[-1]
+        for f, _ in q.iter_items(items):
+            if f["k"] != "Fn" or f.get("body") is None:
+                continue
+            # variables holding an implementation: bound from get_iface_impl_for_type / get_iface_impls
+            imps = set()
+            for x in q.walk(f["body"]):
+                pats = []
+                if x["k"] == "Local" and x.get("init") is not None:
+                    pats.append((x["pat"], x["init"]))
+                elif x["k"] == "Let":
+                    pats.append((x["pat"], x["e"]))
+                for pat, init in pats:
+                    if any(y["k"] == "MethodCall" and y["m"] in ("get_iface_impl_for_type", "get_iface_impls") for y in q.walk(init)):
+                        imps |= set(q.pat_bindings(pat))
+            for x in q.walk(f["body"]):
+                if x["k"] == "MethodCall" and x["m"] in ("get_method_of_iface", "get_method_by_name") and x["recv"]["k"] == "Path" and x["recv"]["p"] in imps:
+                    n += 1
+                if x["k"] == "Index" and x["e"]["k"] == "Field" and x["e"]["f"] == "methods" and x["e"]["e"]["k"] == "Path" and x["e"]["e"]["p"] in imps:
+                    n += 1
+                    r.find(f"{short}:{f['name']}:{x['e']['e']['p']}.methods[{q.show(x['i'])}]:positional-dispatch", file, x["l"],
+                           f"{f['name']}: `{q.show(x)}` takes the i-th method of the implementation for the i-th method of the interface. Implementations are only checked to contain every method by name, so one that lists its methods in another order (`implement Ord for Pt {{ fn greater_than.. fn less_than.. }}`) has `<` compiled to greater_than")
+    r.count("method lookups in implementations", n, 5, TB)
+
+
+@rule("RESOLVE-ORDER", ["C21", "C02"], "the expression a binding construct draws from (for iterable, let initialiser, match scrutinee) is resolved in the enclosing scope, before the construct's own variables exist")
+def resolve_order(ctx, r):
+    rs = fn_named(ctx, r, RES, "resolve_names_stmt")
+    re_ = fn_named(ctx, r, RES, "resolve_names_expr")
+    if rs is None or re_ is None:
+        return
+    outer = [b for p in rs["params"] for b in q.pat_bindings(p["pat"]) if "SymbolTable" in p.get("ty", "")]
+    n = 0
+    for fn, enum, variant, src_field in ((rs, "StmtKind", "ForLoop", 1), (rs, "StmtKind", "Let", 2), (re_, "ExprKind", "Match", 0)):
+        arm = arm_of(fn, enum, variant)
+        if arm is None:
+            r.missing(f"{fn['name']}:{variant}", RES)
+            continue
+        fb = am.field_bindings(arm["pat"], variant)
+        src = fb[src_field]["name"] if fb and len(fb) > src_field and fb[src_field]["k"] == "PIdent" else None
+        calls = [x for x in q.walk(arm["body"]) if x["k"] == "Call" and x["f"]["k"] == "Path" and q.last_seg(x["f"]["p"]) == "resolve_names_expr" and len(x["args"]) >= 3 and q.show(x["args"][2]).lstrip("&") == src]
+        if src is None or not calls:
+            r.missing(f"{fn['name']}:{variant}:source expression", RES)
+            continue
+        n += 1
+        c = calls[0]
+        shadows = [x for x in q.walk(arm["body"]) if x["k"] == "Local" and x.get("init") is not None and x["init"]["k"] == "MethodCall" and x["init"]["m"] in ("new_scope", "new_closure_scope")]
+        binds = [x for x in q.walk(arm["body"]) if x["k"] == "Call" and x["f"]["k"] == "Path" and q.last_seg(x["f"]["p"]) == "resolve_names_pat"]
+        before_scope = all(c["l"] < s_["l"] for s_ in shadows)
+        before_bind = all(c["l"] < b["l"] for b in binds)
+        r.ob(before_scope and before_bind, f"resolve.rs:{fn['name']}:{variant}:source-resolved-inside-its-own-scope", RES, c["l"],
+             f"{fn['name']}, {variant}: `{src}` is resolved after the construct's scope is opened or its pattern bound: a name in it that equals one of the construct's own variables (`for n in n - 1`, `let x = x + 1`) then refers to the new, uninitialised variable instead of the enclosing one",
+             sample=f"{variant}: `{src}` resolved in the enclosing scope first")
+    r.count("binding constructs with a source expression", n, 3, RES)
+
+
+@rule("FOR-EPILOGUE", ["C07", "C01"], "both ways out of a for loop drop the iterator that the loop keeps on the operand stack")
+def for_epilogue(ctx, r):
+    f = fn_named(ctx, r, TB, "translate_stmt", "Translator")
+    if f is None:
+        return
+    arm = arm_of(f, "StmtKind", "ForLoop")
+    if arm is None:
+        r.missing("translate_stmt:ForLoop", TB)
+        return
+    # the label `break` jumps to: the end_label of the EnclosingLoop pushed in this arm
+    brk = None
+    for x in q.walk(arm["body"]):
+        if x["k"] == "Struct" and "EnclosingLoop" in str(x.get("p")):
+            for fl in x.get("fields", []):
+                if fl.get("name") == "end_label":
+                    for y in q.walk(fl["e"]):
+                        if y["k"] == "Path":
+                            brk = y["p"]
+    if brk is None:
+        r.missing("translate_stmt:ForLoop:break label", TB)
+        return
+    emits = [x for x in q.walk_post(arm["body"]) if x["k"] == "MethodCall" and x["m"] == "emit" and len(x["args"]) >= 2]
+    emits.sort(key=lambda x: x["l"])
+    idx = next((i for i, e in enumerate(emits) if brk in q.idents_in(e["args"][1]) and "Label" in q.show(e["args"][1])), None)
+    if idx is None:
+        r.missing("translate_stmt:ForLoop:break label emission", TB)
+        return
+    after = [q.show(e["args"][1]) for e in emits[idx + 1:]]
+    dup = any("Instr::Duplicate" in q.show(e["args"][1]) for e in emits[:idx])
+    r.ob(bool(after) and after[0] == "Instr::Pop" and dup, "translate_bytecode.rs:translate_stmt:ForLoop:break-leaves-iterator", TB, emits[idx]["l"],
+         f"the loop keeps its iterator on the operand stack (it is duplicated for every `next`); `break` jumps to `{brk}`, after which {after[:2] or 'nothing'} is emitted: the iterator must be popped there, or every loop left by `break` leaves a slot - a collector root pinning the iterator and the whole iterated array - until the enclosing frame returns",
+         sample=f"for: `{brk}` label followed by Pop (iterator dropped on break)")
+    # the exhausted path additionally drops the `none` payload before reaching that label
+    before = [q.show(e["args"][1]) for e in emits[:idx]]
+    r.ob(len(before) >= 2 and before[-1] == "Instr::Pop" and "Label" in before[-2], "translate_bytecode.rs:translate_stmt:ForLoop:exhausted-path", TB, emits[idx]["l"], "the exhausted path must drop the payload placeholder of `none` (label, Pop) and then fall into the break label", sample="for: exhausted path pops the payload, then shares the break epilogue")
+
+
+@rule("ASSIGN-TARGET", ["C03"], "the generator computes a field index for every member assignment it is given, so the checker must reject a member that is not a struct field")
+def assign_target(ctx, r):
+    tc = fn_named(ctx, r, TC, "generate_constraints_stmt")
+    tb = fn_named(ctx, r, TB, "translate_stmt", "Translator")
+    if tc is None or tb is None:
+        return
+    ga = arm_of(tb, "StmtKind", "Assign")
+    ca = arm_of(tc, "StmtKind", "Assign")
+    if ga is None or ca is None:
+        r.missing("Assign arms", TB)
+        return
+    needs = any(x["k"] == "MethodCall" and x["m"] == "idx_of_field" for x in q.walk(ga["body"]))
+    guards = [x for x in q.walk(ca["body"]) if x["k"] == "If" and "MemberAccess" in q.show(x["c"]) and "StructField" in q.show(x["c"])
+              and any(y["k"] == "MethodCall" and y["m"] == "push" and q.show(y["recv"]).endswith(".errors") for y in q.walk(x["t"])) and any(y["k"] == "Return" for y in q.walk(x["t"]))]
+    r.ob((not needs) or bool(guards), "typecheck.rs:generate_constraints_stmt:Assign:member-that-is-not-a-field-accepted", TC, ca["l"],
+         "the generator lowers `a.m = e` through idx_of_field, which panics unless `m` is a field of a struct; the checker has no diagnostic for a member that resolves to something else (`Color.Red = ..`, `Person.greet = ..`), so such a program is accepted and the compiler panics",
+         sample="Assign: member that is not a struct field -> diagnostic, before constraints are generated")
